@@ -4,23 +4,27 @@ import TsV.Lemmas.Rename
 
 `Serde.applyField` / `Serde.applyVariant` are a port of `serde_derive/src/internals/case.rs`
 (tied to the vendored source by the correspondence check); `Rename.renameAllToCase` is the model of
-typeshare.  Results are compared with `Outcome.agrees` (equal strings, or both sides panic on
-the byte slice `[..1]`, which serde_derive would do at compile time).
+typeshare.  serde_derive byte-slices `[..1]` under `camelCase` and therefore panics (at compile
+time of the user's crate) on an empty Pascal form or a non-ASCII first letter; there is nothing to
+agree with then, so agreement is stated as "whenever serde produces a name, typeshare produces the
+same name" (`Agree`).
 -/
 namespace TsV.C16
 open TsV TsV.Str TsV.Rename TsV.Serde TsV.RenameLemmas
 
 /-- the property at full strength: for each of the eight rules typeshare's name equals serde's,
 in field position and in variant position, for every identifier -/
+def Agree (ts serde : Outcome Str) : Prop := ∀ v, serde = .ok v → ts = .ok v
+
 def C16_full (U : UnicodeOps) : Prop :=
   ∀ (r : Str) (rule : Rule) (s : Str), Rule.ofStr r = some rule →
-    (renameAllToCase U s (some r)).agrees (applyField rule s) = true ∧
-    (renameAllToCase U s (some r)).agrees (applyVariant U rule s) = true
+    Agree (renameAllToCase U s (some r)) (applyField rule s) ∧
+    Agree (renameAllToCase U s (some r)) (applyVariant U rule s)
 
 /-- the pinned tree does not satisfy it: variant `URL` under `camelCase` gives `url`, serde `uRL` -/
 theorem C16_not_full : ¬ C16_full UnicodeOps.ascii := by
   intro h
-  have := (h s%"camelCase" .camel s%"URL" (by decide)).2
+  have := (h s%"camelCase" .camel s%"URL" (by decide)).2 s%"uRL" (by decide)
   revert this
   decide
 
@@ -38,7 +42,7 @@ def byRule (U : UnicodeOps) (s : Str) : Option Rule → Outcome Str
   | some .lower => .ok (U.lowerStr s)
   | some .upper => .ok (U.upperStr s)
   | some .pascal => .ok (toPascal s)
-  | some .camel => toCamel s
+  | some .camel => .ok (toCamel s)
   | some .snake => .ok (toSnake U s)
   | some .screamingSnake => .ok (toScreamingSnake U s)
   | some .kebab => .ok (toKebab U s)
@@ -61,22 +65,25 @@ theorem unknown_rule (U : UnicodeOps) (s r : Str) (h : Rule.ofStr r = none) :
 /-- no `rename_all` at all -/
 theorem no_rule (U : UnicodeOps) (s : Str) : renameAllToCase U s none = .ok s := rfl
 
-theorem agrees_ok (a b : Str) (h : a = b) : (Outcome.ok a).agrees (.ok b) = true := by
-  subst h; simp [Outcome.agrees]
+theorem agrees_ok (a b : Str) (h : a = b) : Agree (Outcome.ok a) (.ok b) := by
+  subst h; intro v hv; exact hv
 
-theorem lowerFirst_agrees (site : Str) (a b : Str) (h : a = b) :
-    (Rename.lowerFirst site a).agrees (Serde.lowerFirst b) = true := by
+theorem lowerFirst_agrees (a b : Str) (h : a = b) :
+    Agree (.ok (Rename.lowerFirst a)) (Serde.lowerFirst b) := by
   subst h
+  intro v hv
   cases a with
-  | nil => simp [Rename.lowerFirst, Serde.lowerFirst, Outcome.agrees]
+  | nil => simp [Serde.lowerFirst] at hv
   | cons c t =>
-    simp only [Rename.lowerFirst, Serde.lowerFirst]
-    split <;> simp [Outcome.agrees]
+    simp only [Serde.lowerFirst] at hv
+    split at hv
+    · simpa [Rename.lowerFirst] using hv
+    · simp at hv
 
 /-- **Field position.** On conventionally named fields every one of the eight rules gives serde's key. -/
 theorem C16_field (U : UnicodeOps) (hU : U.AsciiCorrect) (r : Str) (rule : Rule)
     (hr : Rule.ofStr r = some rule) (s : Str) (hs : FieldConv s) :
-    (renameAllToCase U s (some r)).agrees (applyField rule s) = true := by
+    Agree (renameAllToCase U s (some r)) (applyField rule s) := by
   rw [rename_by_rule, hr]
   have hascii : ∀ c ∈ s, c.toNat < 128 := fun c hc => fc_ascii c (hs c hc)
   have hlow : ∀ c ∈ s, asciiLower c = c := fun c hc => fc_lowerId c (hs c hc)
@@ -88,7 +95,7 @@ theorem C16_field (U : UnicodeOps) (hU : U.AsciiCorrect) (r : Str) (rule : Rule)
     rw [hU.upper c (hascii c hc)]; exact fc_notUpper c (hs c hc)
   have hpascal : toPascal s = fieldPascal s := pascalGo_field _ s hlow true
   cases rule with
-  | none => simp [byRule, applyField, Outcome.agrees]
+  | none => simp only [byRule, applyField]; exact agrees_ok _ _ rfl
   | lower =>
     simp only [byRule, applyField]
     apply agrees_ok
@@ -97,7 +104,7 @@ theorem C16_field (U : UnicodeOps) (hU : U.AsciiCorrect) (r : Str) (rule : Rule)
     simp only [byRule, applyField]
     exact agrees_ok _ _ (upperStr_ascii U hU s hascii)
   | pascal => simp only [byRule, applyField]; exact agrees_ok _ _ hpascal
-  | camel => simp only [byRule, applyField, toCamel]; exact lowerFirst_agrees _ _ _ hpascal
+  | camel => simp only [byRule, applyField, toCamel]; exact lowerFirst_agrees _ _ hpascal
   | snake => simp only [byRule, applyField]; exact agrees_ok _ _ hsnake
   | screamingSnake =>
     simp only [byRule, applyField, toScreamingSnake, hsnake]; exact agrees_ok _ _ rfl
@@ -109,7 +116,7 @@ theorem C16_field (U : UnicodeOps) (hU : U.AsciiCorrect) (r : Str) (rule : Rule)
 /-- **Variant position.** On UpperCamelCase variants every one of the eight rules gives serde's name. -/
 theorem C16_variant (U : UnicodeOps) (hU : U.AsciiCorrect) (r : Str) (rule : Rule)
     (hr : Rule.ofStr r = some rule) (s : Str) (hs : UpperCamel s) :
-    (renameAllToCase U s (some r)).agrees (applyVariant U rule s) = true := by
+    Agree (renameAllToCase U s (some r)) (applyVariant U rule s) := by
   rw [rename_by_rule, hr]
   obtain ⟨c, rest, rfl, hc, hrest, hshape⟩ := hs
   have hascii : ∀ x ∈ c :: rest, x.toNat < 128 := by
@@ -141,13 +148,13 @@ theorem C16_variant (U : UnicodeOps) (hU : U.AsciiCorrect) (r : Str) (rule : Rul
     have hd := hflag hf x hx
     rw [hU.upper x (digit_ascii x hd)]; exact digit_notUpper x hd
   cases rule with
-  | none => simp [byRule, applyVariant, Outcome.agrees]
+  | none => simp only [byRule, applyVariant]; exact agrees_ok _ _ rfl
   | lower =>
     simp only [byRule, applyVariant]; exact agrees_ok _ _ (lowerStr_ascii U hU _ hascii)
   | upper =>
     simp only [byRule, applyVariant]; exact agrees_ok _ _ (upperStr_ascii U hU _ hascii)
   | pascal => simp only [byRule, applyVariant]; exact agrees_ok _ _ hpascal
-  | camel => simp only [byRule, applyVariant, toCamel]; exact lowerFirst_agrees _ _ _ hpascal
+  | camel => simp only [byRule, applyVariant, toCamel]; exact lowerFirst_agrees _ _ hpascal
   | snake => simp only [byRule, applyVariant]; exact agrees_ok _ _ hsnake
   | screamingSnake =>
     simp only [byRule, applyVariant, toScreamingSnake, hsnake]; exact agrees_ok _ _ rfl
@@ -169,7 +176,19 @@ example : renameAllToCase .ascii s%"URL" (some s%"camelCase") = .ok s%"url" ∧
 /-- a field with a capital (outside the convention): typeshare splits, serde does not -/
 example : renameAllToCase .ascii s%"fooBar" (some s%"snake_case") = .ok s%"foo_bar" ∧
     applyField .snake s%"fooBar" = .ok s%"fooBar" := by decide
-/-- both sides panic on `__` under camelCase -/
-example : (renameAllToCase .ascii s%"__" (some s%"camelCase")).agrees (applyField .camel s%"__") = true := by decide
+/-- `__` under camelCase: serde_derive panics (compile error in the user crate), typeshare yields the empty name -/
+example : renameAllToCase .ascii s%"__" (some s%"camelCase") = .ok [] ∧
+    applyField .camel s%"__" = .panic s%"case.rs" := by decide
+
+/-- typeshare's own conversion never fails (C07) -/
+theorem rename_total (U : UnicodeOps) (s : Str) (rule : Option Str) :
+    ∃ v, renameAllToCase U s rule = .ok v := by
+  cases rule with
+  | none => exact ⟨s, rfl⟩
+  | some r =>
+    rw [rename_by_rule]
+    cases Rule.ofStr r with
+    | none => exact ⟨_, rfl⟩
+    | some rule => cases rule <;> exact ⟨_, rfl⟩
 
 end TsV.C16
